@@ -68,7 +68,30 @@ func dispatchTokens(name string, base int, jsonTag string) (cborTok []byte, json
 	return
 }
 
+// specialProfiles: legal but unusual registrations, present in every universe
+type specialProfile struct {
+	poolProfile
+	mustFail     bool
+	eitherResult bool // the property does not say whether this registration succeeds; either way the rest applies
+	lenient      bool // NewClaims(n) need not report n (the factory is at fault, not the register)
+}
+
+func specialProfiles() []specialProfile {
+	hostCase := "http://ARM.com/psa/2.0.0" // differs from profile 2's name in the case of the host only: another name
+	return []specialProfile{
+		{poolProfile{hostCase, ExtProfile{hostCase, 2}, "*props.ExtP2Claims", "eat-profile", 2}, false, false, false},
+		{poolProfile{"http://example.com/psa/forgetful", ForgetfulProfile{"http://example.com/psa/forgetful"}, "*props.ExtP2Claims", "eat-profile", 2}, false, true, true},
+		{poolProfile{"http://example.com/psa/hdr-eat", HdrProfile{"http://example.com/psa/hdr-eat", 0}, "*props.HdrClaims", "eat-profile", 2}, false, false, false},
+		{poolProfile{"http://example.com/psa/hdr-none", HdrProfile{"http://example.com/psa/hdr-none", 2}, "*props.HdrClaims", "eat-profile", 2}, true, false, false},
+		{poolProfile{"http://example.com/psa/hdr-psa", HdrProfile{"http://example.com/psa/hdr-psa", 1}, "*props.HdrClaims", "psa-profile", 2}, false, false, false},
+	}
+}
+
+var c16Initial any // the register holding the built-ins only, captured once per process
+
 type c16Universe struct {
+	special  []specialProfile
+	lenient  map[string]bool
 	pool     []poolProfile
 	names    []string // all declared names observed
 	tokens   map[string][2][]byte
@@ -78,8 +101,11 @@ type c16Universe struct {
 	mapID    uintptr
 }
 
-func newC16Universe(k int) *c16Universe {
-	u := &c16Universe{pool: profilePool(k), tokens: map[string][2][]byte{}, typeOf: map[string]string{}, declares: map[string][]string{}}
+func newC16Universe(k int, special bool) *c16Universe {
+	u := &c16Universe{pool: profilePool(k), lenient: map[string]bool{}, tokens: map[string][2][]byte{}, typeOf: map[string]string{}, declares: map[string][]string{}}
+	if special {
+		u.special = specialProfiles()
+	}
 	// start from the built-ins only
 	saved := psatoken.VerifRegistrySave()
 	for _, n := range psatoken.VerifRegistryNames() {
@@ -88,7 +114,10 @@ func newC16Universe(k int) *c16Universe {
 			_ = n
 		}
 	}
-	u.initial = builtinsOnly(saved)
+	if c16Initial == nil {
+		c16Initial = builtinsOnly(saved)
+	}
+	u.initial = c16Initial
 	psatoken.VerifRegistryRestore(u.initial)
 	add := func(name string, base int, tag, typ string) {
 		c, j := dispatchTokens(name, base, tag)
@@ -102,6 +131,10 @@ func newC16Universe(k int) *c16Universe {
 	add(refmodel.P2Name, 2, "eat-profile", "*psatoken.P2Claims")
 	for _, p := range u.pool {
 		add(p.name, p.base, p.jsonTag, p.typ)
+	}
+	for _, sp := range u.special {
+		add(sp.name, sp.base, sp.jsonTag, sp.typ)
+		u.lenient[sp.name] = sp.lenient
 	}
 	add("http://unknown.example/psa", 2, "eat-profile", "")
 	// tokens that declare two profiles at once (different JSON members / CBOR keys)
@@ -267,24 +300,28 @@ func mutateInstance(cl psatoken.IClaims) {
 	_ = cl.SetVSI("mutated")
 }
 
-func c16System(k int) func() bfs.System {
+func c16System(k int, special bool) func() bfs.System {
 	return func() bfs.System {
-		u := newC16Universe(k)
+		u := newC16Universe(k, special)
 		type opDef struct {
 			name     string
 			prof     psatoken.IProfile
 			mustFail bool // regardless of state
+			either   bool
 		}
 		var ops []opDef
 		for _, p := range u.pool {
-			ops = append(ops, opDef{"Register(" + p.name + ")", p.prof, false})
+			ops = append(ops, opDef{"Register(" + p.name + ")", p.prof, false, false})
+		}
+		for _, sp := range u.special {
+			ops = append(ops, opDef{"Register(" + sp.name + ")", sp.prof, sp.mustFail, sp.eitherResult})
 		}
 		ops = append(ops,
-			opDef{"Register(Profile1) again", psatoken.Profile1{}, true},
-			opDef{"Register(Profile2) again", psatoken.Profile2{}, true},
-			opDef{"Register(no-profile-field)", BadProfile{"http://example.com/psa/bad0", 0}, true},
-			opDef{"Register(no-json-tag)", BadProfile{"http://example.com/psa/bad1", 1}, true},
-			opDef{"Register(impostor-for-profile-2)", ExtProfile{refmodel.P2Name, 1}, true},
+			opDef{"Register(Profile1) again", psatoken.Profile1{}, true, false},
+			opDef{"Register(Profile2) again", psatoken.Profile2{}, true, false},
+			opDef{"Register(no-profile-field)", BadProfile{"http://example.com/psa/bad0", 0}, true, false},
+			opDef{"Register(no-json-tag)", BadProfile{"http://example.com/psa/bad1", 1}, true, false},
+			opDef{"Register(impostor-for-profile-2)", ExtProfile{refmodel.P2Name, 1}, true, false},
 		)
 		run := func(hist []int) bfs.Outcome {
 			var out bfs.Outcome
@@ -316,7 +353,7 @@ func c16System(k int) func() bfs.System {
 				if !last {
 					continue
 				}
-				if (err != nil) != wantFail {
+				if (err != nil) != wantFail && !(op.either && !registered[name] && err != nil) {
 					fail(fmt.Sprintf("C16:registration-outcome:%s", op.name), "%s: err=%v, expected failure=%v (already registered=%v)", op.name, err, wantFail, registered[name])
 				}
 				after := u.observe(0, nil)
@@ -350,7 +387,11 @@ func c16System(k int) func() bfs.System {
 					// carrying that member with another value turn from "no profile claim: profile 1" into "unregistered
 					// profile: error" (C07 demands both), so they are affected by this registration as well
 					newTag := ""
-					for _, pp := range u.pool {
+					all := append([]poolProfile{}, u.pool...)
+					for _, sp := range u.special {
+						all = append(all, sp.poolProfile)
+					}
+					for _, pp := range all {
 						if pp.name == name {
 							newTag = pp.jsonTag
 						}
@@ -359,7 +400,7 @@ func c16System(k int) func() bfs.System {
 						if n2 == name {
 							continue
 						}
-						for _, pp := range u.pool {
+						for _, pp := range all {
 							if pp.name == n2 && pp.jsonTag == newTag {
 								newTag = "" // the member name was a profile claim already
 							}
@@ -402,9 +443,24 @@ func c16System(k int) func() bfs.System {
 					if got := fmt.Sprintf("%T", cl); got != u.typeOf[n] {
 						fail("C16:newclaims-type", "NewClaims(%q) returned %s, registered type %s", n, got, u.typeOf[n])
 					}
-					if p, perr := cl.GetProfile(); perr != nil || p != n {
+					if p, perr := cl.GetProfile(); (perr != nil || p != n) && !u.lenient[n] {
 						fail("C16:newclaims-profile", "NewClaims(%q).GetProfile() = %q, %v", n, p, perr)
 					}
+				}
+			}
+			// a JSON document declaring a registered name under that profile's own member decodes as the registered type
+			for _, n := range u.names {
+				if n == "" || strings.HasPrefix(n, "both:") || u.typeOf[n] == "" {
+					continue
+				}
+				if !(registered[n] || n == refmodel.P1Name || n == refmodel.P2Name) {
+					continue
+				}
+				cl, err := psatoken.DecodeClaimsFromJSON(append([]byte{}, u.tokens[n][1]...))
+				if err != nil {
+					fail("C16:json-dispatch-registered:"+u.typeOf[n], "JSON document declaring registered %q: %v", n, err)
+				} else if got := fmt.Sprintf("%T", cl); got != u.typeOf[n] {
+					fail("C16:json-dispatch-registered:"+u.typeOf[n], "JSON document declaring registered %q decoded as %s, registered type %s", n, got, u.typeOf[n])
 				}
 			}
 			// repeatability of the whole observation set
@@ -502,8 +558,10 @@ func c16System(k int) func() bfs.System {
 }
 
 func init() {
-	Systems["c16.register.k3"] = c16System(3)
-	Systems["c16.register.k8"] = c16System(8)
+	Systems["c16.register.k3"] = c16System(3, false)
+	Systems["c16.register.k8"] = c16System(8, false)
+	Systems["c16.register.special"] = c16System(0, true)
+	Systems["c16.register.k2+special"] = c16System(2, true)
 	Checks["C16"] = func(r *evid.Run) {
 		dl := deadline(r, 55*time.Second, 20*time.Minute)
 		name := "c16.register.k3"
@@ -511,6 +569,14 @@ func init() {
 			name = "c16.register.k8"
 		}
 		res := exploreBFSOpts(r, name, bfs.Options{Dedup: true, Deadline: dl, Workers: 1})
+		// unusual but legal registrations: a name differing from profile 2's in the case of the host, a factory that forgets the
+		// canonical profile, one Go claims type registered with different profile members (embedded interface)
+		name2 := "c16.register.special"
+		if thorough(r) {
+			name2 = "c16.register.k2+special"
+		}
+		res2 := exploreBFSOpts(r, name2, bfs.Options{Dedup: true, Deadline: dl, Workers: 1})
+		res.States += res2.States
 		for k, v := range instrInfo() {
 			r.Set(k, v)
 		}
